@@ -203,4 +203,5 @@ func runC01(e *Engine, r *Report) {
 	// shared mechanisms decided by other properties' rule sets
 	borrow(e, r, "C06", "GD-readindex-accept", "GD-confirm", "GD-confirm-prefix", "WMC-ready-producer")
 	borrow(e, r, "C11", "LS-usersm", "GD-destroyed")
+	borrow(e, r, "C12", "PAIR-pool")
 }
